@@ -727,9 +727,30 @@ def first_diff(a, b, path="/"):
 BUDGET = {"quick": {"regex": 300, "xml": 200}, "thorough": {"regex": 9000, "xml": 6000}}
 
 
+def _quiet(strategy_factory):
+    def make():
+        import logging
+
+        logging.getLogger("codemodder").setLevel(logging.CRITICAL + 1)
+        return strategy_factory()
+
+    return make
+
+
+# coverage-guided stage: same strategies, same oracles, bytes chosen by libFuzzer (cmv/fuzz.py)
+FUZZ_TARGETS = {
+    "regex": (_quiet(lambda: regex_case()), lambda c, stats: eval_regex(c, stats)),
+    "xml": (_quiet(lambda: xml_case()), lambda c, stats: eval_xml(c, stats)),
+}
+FUZZ_BUDGET = {"quick": (1, 1000), "thorough": (4, 40000)}
+
+
 def shards(tier, seed):
     b = BUDGET[tier]
     out = []
+    for i in range(FUZZ_BUDGET[tier][0]):
+        out.append({"kind": "fuzz", "target": "xml", "runs": FUZZ_BUDGET[tier][1], "seed": seed * 1000 + 900 + i})
+        out.append({"kind": "fuzz", "target": "regex", "runs": FUZZ_BUDGET[tier][1], "seed": seed * 1000 + 950 + i})
     for i in range(8):
         out.append({"kind": "xml", "n": b["xml"], "seed": seed * 1000 + 100 + i})
     for i in range(8):
@@ -740,6 +761,10 @@ def shards(tier, seed):
 def run_shard(spec):
     import logging
 
+    if spec["kind"] == "fuzz":
+        from .. import fuzz
+
+        return fuzz.fuzz_shard(__name__, spec["target"], spec["runs"], spec["seed"])
     stats = core.Stats()
     lg = logging.getLogger("codemodder")
     old = lg.level
